@@ -837,6 +837,17 @@ func rulePasswordPrep(c *core.Ctx) {
 			}
 			return true
 		})
+		// the same as a fixed-size array whose full slice is returned
+		ast.Inspect(fn.Decl.Body, func(n ast.Node) bool {
+			if vs, ok := n.(*ast.ValueSpec); ok && vs.Type != nil {
+				if at, isArr := info.TypeOf(vs.Type).(*types.Array); isArr && at.Len() == 32 {
+					if b, isB := at.Elem().Underlying().(*types.Basic); isB && b.Kind() == types.Uint8 {
+						ok32 = true
+					}
+				}
+			}
+			return true
+		})
 		o.Require(ok32, "padded password is not 32 bytes")
 		o.Require(okPad, "the remainder is not filled from passwdPad")
 		pad := c.Prog.ArrayTable("pdf", "passwdPad")
